@@ -131,6 +131,29 @@ def judge_c19(case, out):
     v = default_judge(case, out)
     if str(real.get('parse', '')).startswith('panic'):
         v.append(('SPECFAIL', 'totp:from_str-panics', real.get('parse')))
+    # the property itself: the model is the RFC 6238 / RFC 4648 reference (its primitives are checked against the published
+    # vectors by the selftest case), so on the property's own domain (digits 1..9) a difference is a failing input
+    m = out.get('model') or {}
+    if m.get('parse') == 'ok' and 1 <= int(m.get('digits', 0)) <= 9 and int(m.get('period', 0)) >= 1:
+        if real.get('parse') != 'ok':
+            v.append(('SPECFAIL', 'totp:wellformed-uri-rejected', 'parameters within the property\'s domain (digits %s, period %s, %s) but from_str returns %s'
+                      % (m.get('digits'), m.get('period'), m.get('algorithm'), real.get('parse'))))
+        else:
+            for k in ('label', 'issuer', 'period', 'digits', 'algorithm', 'secret_b32'):
+                if k in m and real.get(k) != m.get(k):
+                    v.append(('SPECFAIL', 'totp:parsed-%s-differs' % k, 'from_str gives %r, the URI says %r' % (real.get(k), m.get(k))))
+            rv, mv = real.get('values') or [], m.get('values') or []
+            for i, (a, b) in enumerate(zip(rv, mv)):
+                if a != b and isinstance(b, list):
+                    t = (case.get('times') or [None] * (i + 1))[i]
+                    what = 'code' if not isinstance(a, list) or a[0] != b[0] else 'validity'
+                    v.append(('SPECFAIL', 'totp:%s-differs-from-rfc6238' % what, 'time %s, %s, period %s, %s digits: value_at gives %s, RFC 6238 gives %s'
+                              % (t, m.get('algorithm'), m.get('period'), m.get('digits'), a, b)))
+                    break
+    elif str(m.get('parse', '')).startswith('err') and real.get('parse') == 'ok':
+        v.append(('SPECFAIL', 'totp:malformed-uri-accepted', 'the URI is malformed (%s) but from_str returns a value' % m.get('parse')))
+    if any(k == 'SPECFAIL' for (k, _, _) in v):
+        v = [x for x in v if x[0] != 'AGREE']
     return v
 
 
@@ -523,6 +546,8 @@ def judge_xml(pid):
                 v.append(('SPECFAIL', 'c08:leak:%s' % l.split(':')[0], l))
             for l in ch.get('protected_leaks', []):
                 v.append(('SPECFAIL', 'c08:protected:%s' % l.split(':')[0], l))
+        if pid == 'C09' and sub == 'lossless' and save == 'ok' and str(ch.get('unwrap')) in ('inner-key-size', 'size-iv', 'size-seed'):
+            v.append(('SPECFAIL', 'c09:size-%s' % {'inner-key-size': 'inner_key', 'size-iv': 'iv', 'size-seed': 'master_seed'}[ch.get('unwrap')], 'the strict KDBX4 reader finds a random value of the wrong size in the saved file (clause %s)' % ch.get('unwrap')))
         if pid == 'C09' and sub == 'lossless' and save == 'ok' and ch.get('unwrap') == 'ok':
             for name, f in ch.get('fresh', {}).items():
                 if f['len'] != f['want_len']:
@@ -552,9 +577,12 @@ XML_RULE = ('databases built through the public API with every field of every pu
             'icons, pool binaries compressed and not, inner-header attachments, deleted objects) x 3 outer ciphers x {AES-KDF, Argon2d, Argon2id} x gzip on/off x 3 inner ciphers x '
             'credential compositions; each: real save, independent strict unwrap, tokenise, Lean writer model vs real events, Lean reader model vs real re-open, real re-open vs original')
 for pid, extra_rule, txt, part in [
-    ('C03', '', 'Kernel-checked codec round trips and key-stream threading; the faithful Lean models of the XML writer, the xml-rs contract and the XML reader are compared event-by-event and '
+    ('C03', '', 'Kernel-checked: codec round trips, the container framing, and the struct-level XML round trip (writer events -> xml-rs contract -> reader) for values (plain and protected, with the '
+            'key-stream cursor), time-stamp maps, custom data, auto-type settings and whole entries with nested histories, for every key stream, cursor position and map iteration order '
+            '(C03_entry_roundtrip_partial). The faithful Lean models of the XML writer, the xml-rs contract and the XML reader are compared event-by-event and '
             'field-by-field with the real save/open on every generated database, and save∘open = id is checked on the real code with PartialEq.',
-     ['C03_roundtrip for the whole schema is stated, proved for the codecs and the container framing, and validated (not proved) for the struct-level XML mapping']),
+     ['C03_xml_full (the whole schema) is stated; proved: codecs, container framing, Value / Times / CustomData / AutoType / Entry-with-history (entries without tags and colours); '
+      'groups, Meta, the document frame, tags and colours are validated by the correspondence (a test), not proved']),
     ('C07', '; oracle clauses of the strict reader are named individually', 'Kernel-checked: the library layout is one of the conforming layouts and decodes (framing theorem), sizes of IV/keys/seeds are '
             'those the algorithms require (decide over constants regenerated from the source). Every real save output is unwrapped by an independent strict reader and decoded by the Lean reader model.',
      ['the literal-CR question (F12): the emitter writes CR unescaped; xml-rs does not normalise line ends, a conforming XML processor would deliver LF — reported in DESIGN.md, not counted as a violation of C07']),
